@@ -98,6 +98,12 @@ def install():
     import crosshair.statespace as ss
     ss.StateSpace.fork_parallel = lambda self, false_probability, desc="": False
 
+    # CrossHair caps the verdict of every path that creates a real-valued float at UNKNOWN (real
+    # arithmetic is not IEEE arithmetic).  M1 accepts real semantics on domains where the two
+    # coincide, so the cap is removed: "Confirmed over all paths" then means every path confirmed
+    # under M1 (and every counterexample is replayed with true floats anyway).
+    ss.StateSpace.cap_result_at_unknown = lambda self: None
+
     # int(<symbolic float>) : CrossHair's builtin patch realises the float (one path per concrete
     # value); under M1 (real-valued floats) truncation is expressible symbolically, which is what
     # RealBasedSymbolicFloat.__int__ already does.
